@@ -1,1 +1,58 @@
-From Oras Require Import Base.Prelude Model.OciCrash Proofs.OciCrash.
+(* C10 -- A process crash never leaves an OCI layout unreadable, corrupt or half-updated.
+   Only statements closed by [exact]; the lemmas live in Proofs/OciCrash.v, the model in
+   Model/OciCrash.v (operations compiled to file-system micro-steps; a crash is a cut of
+   the interrupted operation's step list at any position) and the meaning of
+   "recoverable" in Model/OciCrashSpec.v. *)
+From Oras Require Import Base.Prelude Model.OciCrash Model.OciCrashSpec Proofs.OciCrash.
+
+(* For every digest/size verification function H, every iteration order of saveIndex,
+   every history h of completed Push/Tag/Untag/Delete/SaveIndex operations on a freshly
+   initialised store, every interrupted operation o and every cut k of its micro-steps:
+   the directory found afterwards has a valid oci-layout, every file under blobs/ is
+   complete and matches its name, index.json parses and each entry names an existing
+   blob, index.json is the one before or the one after o, every blob that was there
+   before and would be there after is there, and no other blob appeared. *)
+Theorem C10_crash_safe :
+  forall (H : list N -> N) (shuffle : nat -> list entry -> list entry),
+    (forall c l e, In e (shuffle c l) <-> In e l) ->
+    forall (h : list op) (o : op) (k : nat),
+      let s := run H shuffle false h init in
+      Recoverable H (sfs s) (crash_fs H shuffle false s o k) (sfs (run_op H shuffle false s o)).
+Proof. exact crash_safe. Qed.
+Print Assumptions C10_crash_safe.
+
+(* the tag mapping a reader derives from index.json is the one before or the one after *)
+Theorem C10_tag_mapping_before_or_after :
+  forall (H : list N -> N) (shuffle : nat -> list entry -> list entry),
+    (forall c l e, In e (shuffle c l) <-> In e l) ->
+    forall (h : list op) (o : op) (k : nat),
+      let s := run H shuffle false h init in
+      let fsk := crash_fs H shuffle false s o k in
+      same_tags fsk (sfs s) \/ same_tags fsk (sfs (run_op H shuffle false s o)).
+Proof. exact crash_tags_before_or_after. Qed.
+Print Assumptions C10_tag_mapping_before_or_after.
+
+(* The code before the repair (os.WriteFile on index.json itself, [inplace = true]):
+   the theorem is false.  Witness: SaveIndex on the fresh store cut after open(O_TRUNC). *)
+Theorem C10_crash_safe_refuted_inplace :
+  forall (H : list N -> N),
+  exists h o k,
+    let s := run H (fun _ l => l) true h init in
+    ~ Recoverable H (sfs s) (crash_fs H (fun _ l => l) true s o k)
+        (sfs (run_op H (fun _ l => l) true s o)).
+Proof. exact crash_unsafe_inplace. Qed.
+Print Assumptions C10_crash_safe_refuted_inplace.
+
+(* The hypotheses are satisfiable and the statement is not vacuous: a concrete history
+   (push a layer, push a manifest, tag it, delete it cut after the index rename). *)
+Example C10_example_instance :
+  let H := fun c : list N => match c with [7; 8] => 1 | [9] => 2 | _ => 0 end in
+  let h := [Push 1 [7; 8] false; Push 2 [9] true; Tag 2 5] in
+  let s := run H (fun _ l => l) false h init in
+  recoverableb H [1; 2] (sfs s) (crash_fs H (fun _ l => l) false s (Delete 2) 4)
+    (sfs (run_op H (fun _ l => l) false s (Delete 2))) = true /\
+  read_index (sfs s) = Some [(2, Some 5)] /\
+  read_index (crash_fs H (fun _ l => l) false s (Delete 2) 4) = Some [] /\
+  exists_file (crash_fs H (fun _ l => l) false s (Delete 2) 4) (FBlob 2) = true /\
+  exists_file (sfs (run_op H (fun _ l => l) false s (Delete 2))) (FBlob 2) = false.
+Proof. vm_compute. repeat split; reflexivity. Qed.
